@@ -39,7 +39,7 @@ class TLCResult:
 _STATS = re.compile(r"(\d+) states generated, (\d+) distinct states found")
 _DEPTH = re.compile(r"The depth of the complete state graph search is (\d+)")
 _INV = re.compile(r"Invariant (\S+) is violated")
-_PROP = re.compile(r"(?:Temporal properties were violated|Action property (\S+) is violated|property (\S+) is violated)")
+_PROP = re.compile(r"(?:Temporal properties were violated|Temporal property (?:\S+) was violated|Action property (\S+) is violated|property (\S+) is violated)")
 
 
 def _parse_printed(line):
